@@ -1059,11 +1059,11 @@ theorem C13_cex_reevaluated :
 
 /-- **C13_cex_diamond** (test on a concrete witness = finding F-C13-2): an instance of a class that is reachable
 from `T` along two inheritance paths is yielded twice (`recursive_subclasses` lists the class twice); once with
-the repaired listing. -/
+the repaired listing (the code as it is since the fix). -/
 theorem C13_cex_diamond :
-    outs (run Quirks.asIs diamondSchema lifo [.new 0 3 0, .mkq 1 0 none, .evalq 1]) = [([0, 0], [0])] ∧
-    outs (run { Quirks.asIs with dupSubclasses := false } diamondSchema lifo [.new 0 3 0, .mkq 1 0 none, .evalq 1])
-      = [([0], [0])] := by
+    outs (run { Quirks.asIs with dupSubclasses := true } diamondSchema lifo [.new 0 3 0, .mkq 1 0 none, .evalq 1])
+      = [([0, 0], [0])] ∧
+    outs (run Quirks.asIs diamondSchema lifo [.new 0 3 0, .mkq 1 0 none, .evalq 1]) = [([0], [0])] := by
   constructor <;> decide
 
 /-! Non-vacuity (tests): the hypotheses of the theorems above are met by non-trivial inputs. -/
